@@ -124,6 +124,20 @@ def check(ctx):
                     a, b = key_fields(impl_step(rec)), key_fields(impl_step(other))
                     if a != b:
                         diffs.append((rec, "memo-vs-nomemo", "with memo %s, DisableMemoize %s" % (a[:3], b[:3]), True))
+        # and on a reused parser: the same history with and without memoisation, step by step
+        for rec in data["cases"]:
+            if rec["kind"] == "history-nomemo" and rec["o"] == "d":
+                other = by.get(rec["cid"][:-2] + "h0")
+                if other and rec.get("impl") and other.get("impl"):
+                    n_eval += 1
+                    for k in range(min(len(rec["impl"]), len(other["impl"]))):
+                        a, b = key_fields(impl_step(other, k)), key_fields(impl_step(rec, k))
+                        if a != b:
+                            diffs.append((other, "memo-vs-nomemo", "reused parser, step %d input %r: with memo %s, DisableMemoize %s" % (k, rec["inputs"][k], a[:3], b[:3]), True))
+                            break
+                    for a_, d_ in core.compare_case(rec, data["grammars"][rec["g"]]):
+                        if a_ in aspects:
+                            diffs.append((rec, a_, d_, None))
     if pid == "C12":
         fresh = {}
         for r in data["cases"]:
@@ -161,7 +175,7 @@ def check(ctx):
             sp = B.parse_obs(rec.get("spec") or "")
             im = impl_step(rec)
             f = False
-            if rec["kind"] != "history":
+            if not rec["kind"].startswith("history"):
                 if sp.get("res") == "S" and (im.get("st") != "0" or im.get("pos") != sp.get("pos") or im.get("toks", "") != sp.get("toks", "")):
                     f = B.OPTSETS[rec["o"]]["noast"] is False or im.get("st") != "0"
                 if sp.get("res") == "F" and im.get("st") != "1":
@@ -170,7 +184,7 @@ def check(ctx):
                     f = True
             if a in ("badtoken", "timeout") or im.get("st") == "2":
                 f = True
-            if a in ("trace", "ast", "print") and rec["kind"] != "history" and sp.get("res") == "S" and im.get("toks", "") == sp.get("toks", ""):
+            if a in ("trace", "ast", "print") and not rec["kind"].startswith("history") and sp.get("res") == "S" and im.get("toks", "") == sp.get("toks", ""):
                 f = True      # tokens are right, what Execute / AST / the printer derive from them is not
             if a in ("errmsg", "errpos", "errtext") and im.get("st") == "1":
                 f = not message_ok(rec["inputs"][0], im)
